@@ -641,6 +641,18 @@ func checkFilterEquality(c *Ctx) {
 						bad = "deep comparison of " + a.Key() + " with " + b.Key() + " does not pair the same field of receiver and other"
 					}
 				case t.K == "invoke" && t.S == "Equals" && len(t.A) == 2:
+					// the child is used as a ComparableFilter only where the comma-ok assertion succeeded
+					if t.A[0].K == "typeassert" {
+						okLit := false
+						for _, l := range pa.Lits {
+							if l.T.K == "assertok" && l.T.S == t.A[0].S && sameTerm(l.T.A[0], t.A[0].A[0]) && l.Val {
+								okLit = true
+							}
+						}
+						if !okLit {
+							bad = "child.Equals is invoked on a path where the child was not found to be comparable (nil interface call)"
+						}
+					}
 					fa, fb := fieldOf(stripAssert(t.A[0]), recvName), fieldOfOther(stripAssert(t.A[1]), otherT)
 					if fa != "" && fa == fb {
 						pc[fa] = true
